@@ -1143,7 +1143,7 @@ func expectedInfo(f *Fn, as []int, withOutputs bool) []string {
 		t := typeName[p.K.T]
 		var toks []string
 		if p.K.Group != "" {
-			t = "[]" + t
+			t = sliceTypeOf(p.K.T, p.Slice).String()
 			toks = append(toks, fmt.Sprintf("group = %q", p.K.Group))
 		} else {
 			if p.Optional {
@@ -1181,7 +1181,7 @@ func expectedInfo(f *Fn, as []int, withOutputs bool) []string {
 		for _, t := range ts {
 			tn := typeName[t]
 			if r.Whole {
-				tn = "[]" + tn
+				tn = sliceTypeOf(t, r.Slice).String()
 			}
 			s := tn
 			if r.K.Name != "" {
